@@ -148,6 +148,17 @@ def check_pair_kernel(ctx: Ctx, rules: Dict[str, str]):
                    isinstance(y.value, ast.Name) and y.value.id == x.targets[0].id and (isinstance(y, ast.Assign) or isinstance(y.op, ast.Add))]
             if len(fin) == 1 and len(stores_to(f.node, x.targets[0].id)) >= 1:
                 acc_name, acc_stmts = x.targets[0].id, [x, fin[0]]
+    if acc_name is None:
+        # the same shape with the accumulator's reset outside the per-alignment loop: recognised, and wrong (the sum carries over)
+        uvar = L0.target.id if isinstance(L0.target, ast.Name) else "?"
+        fin = [y for y in L0.body[L0.body.index(Li) + 1:] if isinstance(y, ast.Assign) and norm(y.targets[0]) == f"{res}[{uvar}]" and isinstance(y.value, ast.Name)]
+        if len(fin) == 1:
+            outside = [x for x in f.node.body if isinstance(x, ast.Assign) and len(x.targets) == 1 and isinstance(x.targets[0], ast.Name) and
+                       x.targets[0].id == fin[0].value.id and zero_value(x.value)]
+            if outside:
+                k.check("zero-init", False, outside[0], "", f"the pair sum is accumulated in `{fin[0].value.id}`, which is reset once before the loop over the unitary "
+                        f"alignments instead of once per unitary alignment: every disorder includes the sums of the previous ones")
+                return True
     extra = [x for x in L0.body if x is not Li and x not in acc_stmts and not pure_local(x) and not (isinstance(x, ast.AugAssign) and isinstance(x.op, ast.Div))]
     if extra:
         return k.undecided("pair-loops", extra[0], "statements besides the pair loops in the per-alignment body: kernel shape not recognised (not a verdict)")
@@ -946,8 +957,8 @@ def _check_append(ctx, k: K, f: FuncInfo, ML: ast.For, FI: ast.If, body: List[as
         growth_body = body[body.index(G) + 1:]
         if isinstance(t, ast.UnaryOp) and isinstance(t.op, ast.Not):
             t = t.operand
-        elif isinstance(t, ast.Compare) and len(t.ops) == 1 and type(t.ops[0]) in (ast.NotEq, ast.Lt, ast.Gt):
-            inv = {ast.NotEq: ast.Eq, ast.Lt: ast.GtE, ast.Gt: ast.LtE}
+        elif isinstance(t, ast.Compare) and len(t.ops) == 1 and type(t.ops[0]) in (ast.NotEq, ast.Lt, ast.Gt, ast.Eq, ast.GtE, ast.LtE):
+            inv = {ast.NotEq: ast.Eq, ast.Lt: ast.GtE, ast.Gt: ast.LtE, ast.Eq: ast.NotEq, ast.GtE: ast.Lt, ast.LtE: ast.Gt}
             t = ast.copy_location(ast.Compare(left=t.left, ops=[inv[type(t.ops[0])]()], comparators=t.comparators), t)
         else:
             return k.undecided("growth-test", G, "guard clause before the growth statements is not a comparison of the fill index with the capacity")
@@ -965,6 +976,8 @@ def _check_append(ctx, k: K, f: FuncInfo, ML: ast.For, FI: ast.If, body: List[as
     okt = False
     if isinstance(t, ast.Compare) and len(t.ops) == 1:
         l_, r_ = t.left, t.comparators[0]
+        if mode is None and ((norm(l_) == ivar and cap_like(r_)) or (norm(r_) == ivar and cap_like(l_))):
+            mode = cap_like(r_) if norm(l_) == ivar else cap_like(l_)          # a recognised operand pair with the wrong operator: decided (VIOLATED) below
         if norm(l_) == ivar and cap_like(r_) and isinstance(t.ops[0], (ast.Eq, ast.GtE)):
             okt, mode = True, cap_like(r_)
         elif norm(r_) == ivar and cap_like(l_) and isinstance(t.ops[0], (ast.Eq, ast.LtE)):
